@@ -264,23 +264,23 @@ func (c *Ctx) Finish(verifDir string, seed int, explanation string, configs []st
 		ruleList[k] = v
 	}
 	cov := map[string]any{
-		"explanation":          explanation,
-		"rules":                ruleList,
-		"obligations":          len(c.Obls),
-		"discharged":           nDis,
-		"violated_unlisted":    nViol,
-		"known_findings_hit":   nKnown,
-		"evaluations":          len(c.Obls),
-		"distinct_nontrivial":  len(c.Obls),
-		"rule":                 "one evaluation = one obligation (rule instance on one role-named construct of /repo's current source); all are distinct by rule+construct; an obligation is non-trivial because it is tied to a construct found in the code (floors fail the check when a rule matches fewer constructs than were confirmed by hand)",
-		"samples":              samples,
-		"configs":              configs,
-		"checker_cmd":          fmt.Sprintf("./check %s %s", c.Prop, c.Tier),
-		"per_rule":             perRule,
-		"notes":                c.Notes,
-		"exhaustive":           false,
-		"static_only":          true,
-		"trusted_base":         []string{"go/types and go/ssa of golang.org/x/tools v0.50.0 (Go 1.26.8)", "the rule tables in /verif/checker", "documented semantics of sync, sync/atomic, context, database/sql"},
+		"explanation":         explanation,
+		"rules":               ruleList,
+		"obligations":         len(c.Obls),
+		"discharged":          nDis,
+		"violated_unlisted":   nViol,
+		"known_findings_hit":  nKnown,
+		"evaluations":         len(c.Obls),
+		"distinct_nontrivial": len(c.Obls),
+		"rule":                "one evaluation = one obligation (rule instance on one role-named construct of /repo's current source); all are distinct by rule+construct; an obligation is non-trivial because it is tied to a construct found in the code (floors fail the check when a rule matches fewer constructs than were confirmed by hand)",
+		"samples":             samples,
+		"configs":             configs,
+		"checker_cmd":         fmt.Sprintf("./check %s %s", c.Prop, c.Tier),
+		"per_rule":            perRule,
+		"notes":               c.Notes,
+		"exhaustive":          false,
+		"static_only":         true,
+		"trusted_base":        []string{"go/types and go/ssa of golang.org/x/tools v0.50.0 (Go 1.26.8)", "the rule tables in /verif/checker", "documented semantics of sync, sync/atomic, context, database/sql"},
 	}
 	for k, v := range c.Stats {
 		cov[k] = v
